@@ -34,6 +34,8 @@ import (
 //	"sth"    GET get-sth
 //	"grow"   the backend integrates N more leaves and publishes a root
 //	"stage"  the backend integrates N more leaves WITHOUT publishing (its visible tree does not grow)
+//	"rewind" the backend now reports a tree N leaves smaller than the one it reported last (a lagging
+//	         replica, a restored backend); the next "grow" makes it report its full tree again
 //	"fault"  from now on GetLatestSignedLogRoot misbehaves in way Mode
 //	"heal"   the backend behaves again
 type InstOp struct {
@@ -87,7 +89,14 @@ func genInst(t *rapid.T) InstCase {
 	}
 	n := rapid.IntRange(1, 8).Draw(t, "nops")
 	for i := 0; i < n; i++ {
-		switch rapid.SampledFrom([]string{"sth", "sth", "sth", "grow", "grow", "stage", "fault", "heal"}).Draw(t, "op") {
+		switch rapid.SampledFrom([]string{"sth", "sth", "sth", "sth", "grow", "grow", "rewind", "rewind", "stage", "fault", "heal"}).Draw(t, "op") {
+		case "rewind":
+			if l.Mirror && l.STH != nil {
+				// a frozen mirror's STH stays within its backend tree (see above): no shrinking below it
+				c.Ops = append(c.Ops, InstOp{Kind: "sth"})
+			} else {
+				c.Ops = append(c.Ops, InstOp{Kind: "rewind", N: rapid.IntRange(1, 12).Draw(t, "rewind-n")})
+			}
 		case "sth":
 			c.Ops = append(c.Ops, InstOp{Kind: "sth"})
 		case "grow":
@@ -171,6 +180,7 @@ func serve(h http.Handler, method, rfcPath string) *httptest.ResponseRecorder {
 
 func checkInst(t *testing.T, c InstCase) (v harness.Verdict) {
 	ct.AllowVerificationWithNonCompliantKeys = false
+	resetSignatures()
 	l := &c.Log
 	v.NonTrivial = true
 	v.Class("log:" + kindOfLog(l))
@@ -183,9 +193,13 @@ func checkInst(t *testing.T, c InstCase) (v harness.Verdict) {
 	published := c.Leaves // size of the backend's visible tree
 	staged := c.Leaves
 	fault := ""
+	var override []byte // when set: the serialised (smaller) root the backend reports instead of its latest
 	be.Intercept = func(call reflog.Call) (proto.Message, error, bool) {
 		if call.RPC != "GetLatestSignedLogRoot" {
 			return nil, nil, false
+		}
+		if fault == "" && override != nil {
+			return &trillian.GetLatestSignedLogRootResponse{SignedLogRoot: &trillian.SignedLogRoot{LogRoot: override}}, nil, true
 		}
 		switch fault {
 		case "unavailable":
@@ -344,7 +358,17 @@ func checkInst(t *testing.T, c InstCase) (v harness.Verdict) {
 			if op.Kind == "grow" {
 				be.Publish(uint64(3 + i))
 				published = staged
+				override = nil
 			}
+		case "rewind":
+			published = max(0, published-op.N)
+			h := be.Tree().Root(published)
+			b, err := (&types.LogRootV1{TreeSize: uint64(published), RootHash: h[:], TimestampNanos: uint64(3 + i)}).MarshalBinary()
+			if err != nil {
+				t.Fatalf("harness: %v", err)
+			}
+			override = b
+			v.Class("backend:rewound")
 		case "fault":
 			fault = op.Mode
 		case "heal":
@@ -421,7 +445,7 @@ func checkInst(t *testing.T, c InstCase) (v harness.Verdict) {
 
 // Inst is the instance half of C15.
 var Inst = harness.Define(harness.Opts{
-	Name: "instance",
-	Rule: "one well-formed single-log configuration (regular / mirror / frozen / read-only, prefixes with leading / trailing / doubled slashes incl. the bare / and log/, pool keys, optional public key - matching or not -, with or without a real roots file) set up over the reference backend (0-10 leaves) through ctfex.New; script of 2-9 steps: get-sth, backend grows (published or only staged), GetLatestSignedLogRoot starts failing in one of 7 ways, heals; mirrors get a contract-abiding MirrorSTHStorage stub holding STHs of up to 12 sizes in 0..16 (or none at all). Oracle: set-up fails <=> non-mirror without roots or key mismatch; add-chain/add-pre-chain registered <=> neither mirror nor read-only; frozen log: every get-sth is 200 with exactly the frozen STH; mirror: tree_size served <= published backend size. Every case is non-trivial",
+	Name:  "instance",
+	Rule:  "one well-formed single-log configuration (regular / mirror / frozen / read-only, prefixes with leading / trailing / doubled slashes incl. the bare / and log/, pool keys, optional public key - matching or not -, with or without a real roots file) set up over the reference backend (0-10 leaves) through ctfex.New; script of 2-9 steps: get-sth, backend grows (published or only staged), GetLatestSignedLogRoot starts failing in one of 7 ways, heals; mirrors get a contract-abiding MirrorSTHStorage stub holding STHs of up to 12 sizes in 0..16 (or none at all). Oracle: set-up fails <=> non-mirror without roots or key mismatch; add-chain/add-pre-chain registered <=> neither mirror nor read-only; frozen log: every get-sth is 200 with exactly the frozen STH; mirror: tree_size served <= published backend size. Every case is non-trivial",
 	Quick: 4000, Thorough: 20000, MaxSample: 2500,
 }, genInst, checkInst)
